@@ -44,7 +44,7 @@ def run(prop, tier, seed, chk):
     cli = os.path.join(chk.TARGET, "debug", "pushr")
 
     os.makedirs(os.path.join(chk.ROOT, "tmp"), exist_ok=True)
-    fams = [dict(name="order", profiles=["checked", "release"], shards=1, digests=True, extra=[], crumbs=False), dict(name="orderrev", profiles=["checked"], shards=1, digests=True, extra=[], crumbs=False), dict(name="pairs", profiles=["checked"], shards=12, digests=False, extra=[], crumbs=True), dict(name="carry", profiles=["checked"], shards=8, digests=False, extra=[], crumbs=True), dict(name="memo", profiles=["checked"], shards=8, digests=False, extra=[], crumbs=True)]
+    fams = [dict(name="order", profiles=["checked", "release"], shards=1, digests=True, extra=[], crumbs=False), dict(name="orderrev", profiles=["checked"], shards=1, digests=True, extra=[], crumbs=False), dict(name="pairs", profiles=["checked", "release"], shards=12, digests=True, extra=[], crumbs=True), dict(name="solo", profiles=["checked", "release"], shards=2, digests=True, extra=[], crumbs=True), dict(name="carry", profiles=["checked", "release"], shards=8, digests=False, extra=[], crumbs=True), dict(name="memo", profiles=["checked", "release"], shards=8, digests=False, extra=[], crumbs=True)]
     jobs = []
     for f in fams:
         for p in f["profiles"]:
